@@ -24,7 +24,7 @@ RULE = ('cases = histories of public operations on Signal/AccSignal objects; the
         '(60 reachable states for AccSignal, 3 for Signal); for every W and every operation m of the mutator/setting alphabet '
         '(84 AccSignal / 36 Signal variants incl. read-like calls of the analysis functions that take the object) the history reads(W);m is run, and for (W,m1,m2) all pairs on a tier-dependent set of '
         'W (quick: empty and all-warm; thorough: every W). Random part: histories of 10..60 operations over mutators, settings and '
-        'reads on records of 32..300 samples. distinct = digest(class, record, operation sequence); non-trivial = history '
+        'reads on records of 32..300 samples with time steps 1e-6..7 s and amplitude scales 1e-9..1e9. distinct = digest(class, record, operation sequence); non-trivial = history '
         'contains at least one mutator or setting change.')
 ASSUMPTIONS = ['float64 records with non-zero peak (integer records make the in-place corrections raise; the statement does not '
                'promise they work)',
@@ -103,22 +103,25 @@ def diff_obs(o1, o2):
 
 
 # ------------------------------------------------------------------------------------------------------ operations
-def op_list(cls_name, rng, n):
-    """Concrete operation variants (name, kwargs) for a record of n samples; arrays drawn from rng."""
-    t_end = (n - 1) * DT
-    f1 = np.array([0.5, 1.0, 2.0, 5.0, 11.0])
-    f2 = np.array([0.3, 0.9, 3.0, 9.0])
+def op_list(cls_name, rng, n, dt=None, amp=1.0):
+    """Concrete operation variants (name, kwargs) for a record of n samples with step dt (default DT) and amplitude scale
+    amp; arrays drawn from rng. Frequencies scale with 1/dt, periods and times with dt, added values with amp."""
+    dt = DT if dt is None else dt
+    q = dt / DT
+    t_end = (n - 1) * dt
+    f1 = np.array([0.5, 1.0, 2.0, 5.0, 11.0]) / q
+    f2 = np.array([0.3, 0.9, 3.0, 9.0]) / q
     ops = [
-        ('reset_values', {'values': rng.normal(size=n)}),
-        ('reset_values', {'values': rng.normal(size=max(8, n - 7))}),
-        ('reset_values', {'values': rng.normal(size=n + 9)}),
-        ('add_constant', {'c': float(rng.normal())}),
-        ('add_series', {'series': rng.normal(size=n)}),
-        ('add_signal', {'values': rng.normal(size=n)}),
-        ('butter_pass', {'cut_off': (0.8, 12.0)}),
-        ('butter_pass', {'cut_off': (None, 12.0)}),
-        ('butter_pass', {'cut_off': (0.8, None), 'filter_order': 2}),
-        ('butter_pass', {'cut_off': [0.8, 12.0], 'remove_gibbs': 'mid'}),
+        ('reset_values', {'values': amp * rng.normal(size=n)}),
+        ('reset_values', {'values': amp * rng.normal(size=max(8, n - 7))}),
+        ('reset_values', {'values': amp * rng.normal(size=n + 9)}),
+        ('add_constant', {'c': amp * float(rng.normal())}),
+        ('add_series', {'series': amp * rng.normal(size=n)}),
+        ('add_signal', {'values': amp * rng.normal(size=n)}),
+        ('butter_pass', {'cut_off': (0.8 / q, 12.0 / q)}),
+        ('butter_pass', {'cut_off': (None, 12.0 / q)}),
+        ('butter_pass', {'cut_off': (0.8 / q, None), 'filter_order': 2}),
+        ('butter_pass', {'cut_off': [0.8 / q, 12.0 / q], 'remove_gibbs': 'mid'}),
         ('remove_average', {}),
         ('remove_poly', {'poly_fit': 0}),
         ('remove_poly', {'poly_fit': 1}),
@@ -128,8 +131,8 @@ def op_list(cls_name, rng, n):
         ('running_average', {'width': 4}),
         ('set:smooth_fa_freqs', {'freqs': f1}),
         ('set:smooth_fa_frequencies', {'freqs': f2}),
-        ('set_smooth_fa_frequecies_by_range', {'limits': (0.4, 20.0), 'n_points': 7}),
-        ('set:smooth_freq_range', {'limits': (0.3, 15.0)}),
+        ('set_smooth_fa_frequecies_by_range', {'limits': (0.4 / q, 20.0 / q), 'n_points': 7}),
+        ('set:smooth_freq_range', {'limits': (0.3 / q, 15.0 / q)}),
         ('set:smooth_freq_points', {'value': 9}),
         ('gen_smooth_fa_spectrum', {'smooth_fa_freqs': f1 * 1.1}),
         ('generate_smooth_fa_spectrum', {}),
@@ -138,11 +141,11 @@ def op_list(cls_name, rng, n):
     for fn in CALLS_SIG if cls_name == 'Signal' else CALLS_SIG + CALLS_ACC:
         ops.append(('call:' + fn, {}))
     if cls_name == 'AccSignal':
-        ta, tb = round(0.2 * t_end, 2), round(0.7 * t_end, 2)
+        ta, tb = float(int(0.2 * (n - 1)) * dt), float(int(0.7 * (n - 1)) * dt)
         ops += [
-            ('remove_rolling_average', {'mtype': 'velocity'}),
-            ('remove_rolling_average', {'mtype': 'acceleration'}),
-            ('remove_rolling_average', {'mtype': 'velocity', 'freq_window': 12}),
+            ('remove_rolling_average', {'mtype': 'velocity', 'freq_window': 5 / q}),
+            ('remove_rolling_average', {'mtype': 'acceleration', 'freq_window': 5 / q}),
+            ('remove_rolling_average', {'mtype': 'velocity', 'freq_window': 12 / q}),
             ('rebase_displacement', {}),
             ('set_zero_residual_velocity', {'timezone': None}),
             ('set_zero_residual_velocity', {'timezone': (ta, tb)}),
@@ -153,18 +156,18 @@ def op_list(cls_name, rng, n):
             ('set_zero_residual_displacement_and_velocity', {'timezone': (ta, None)}),
             ('set_zero_residual_displacement_and_velocity', {'timezone': (0.0, tb)}),
             ('correct_me', {}),
-            ('set:response_times', {'rt': np.array([0.05, 0.2, 1.0])}),
-            ('set:response_times', {'rt': np.array([0.0, 0.3, 0.8, 2.0])}),
-            ('gen_response_spectrum', {'response_times': np.array([0.1, 0.4, 1.5])}),
-            ('gen_response_spectrum', {'response_times': [0.07, 0.5]}),
-            ('generate_response_spectrum', {'response_times': np.array([0.3, 0.6])}),
-            ('response_series', {'response_times': np.array([0.15, 0.9])}),
+            ('set:response_times', {'rt': np.array([0.05, 0.2, 1.0]) * q}),
+            ('set:response_times', {'rt': np.array([0.0, 0.3, 0.8, 2.0]) * q}),
+            ('gen_response_spectrum', {'response_times': np.array([0.1, 0.4, 1.5]) * q}),
+            ('gen_response_spectrum', {'response_times': [0.07 * q, 0.5 * q]}),
+            ('generate_response_spectrum', {'response_times': np.array([0.3, 0.6]) * q}),
+            ('response_series', {'response_times': np.array([0.15, 0.9]) * q}),
             ('response_series', {}),
             ('generate_response_spectrum', {}),
             ('generate_displacement_and_velocity_series', {}),
             ('generate_fa_spectrum', {}),
             ('set:response_times(same object, edited, re-assigned)', {'factor': 1.25}),
-            ('set:response_times(own array assigned, edited, re-assigned)', {'rt': np.array([0.12, 0.5, 1.4])}),
+            ('set:response_times(own array assigned, edited, re-assigned)', {'rt': np.array([0.12, 0.5, 1.4]) * q}),
         ]
     return ops
 
@@ -194,9 +197,9 @@ def call_analysis(eqsig, obj, fn):
     if fn.startswith('sdof.'):
         return getattr(sdof, fn[5:])(obj)
     if fn == 'surface.calc_surface_energy':
-        return eqsig.surface.calc_surface_energy(obj, np.array([0.013, 0.03]), stt=0.02, trim=True, start=True)
+        return eqsig.surface.calc_surface_energy(obj, np.array([1.3, 3.0]) * obj.dt, stt=2 * obj.dt, trim=True, start=True)
     if fn == 'surface.calc_cum_abs_surface_energy':
-        return eqsig.surface.calc_cum_abs_surface_energy(obj, np.array([0.02]))
+        return eqsig.surface.calc_cum_abs_surface_energy(obj, np.array([2.0]) * obj.dt)
     if fn == 'stockwell.get_max_stockwell_freq':
         if hasattr(obj, 'swtf'):
             del obj.swtf          # the helper memoises the transform on the object: not one of the observables
@@ -216,7 +219,7 @@ def call_analysis(eqsig, obj, fn):
     if fn == 'method.get_section_average':
         return obj.get_section_average(start=0, end=obj.dt * (obj.npts // 3))
     if fn == 'fns.calc_smooth_fa_spectrum_w_custom_matrix':
-        m = eqsig.calc_smoothing_matrix_konno_1998(obj.fa_freqs, np.array([1.0, 2.0, 5.0]))
+        m = eqsig.calc_smoothing_matrix_konno_1998(obj.fa_freqs, np.array([1.0, 2.0, 5.0]) * (DT / obj.dt))
         return eqsig.calc_smooth_fa_spectrum_w_custom_matrix(obj, m)
     if fn == 'fns.interp_to_approx_dt':
         return eqsig.interp_to_approx_dt(obj, obj.dt / 3.0)
@@ -299,9 +302,10 @@ class Hook(object):
         self.eqsig = eqsig
         self.states = set()
         self.transitions = set()
+        self.dt = DT
 
     def witness(self, cls_name, base, history):
-        return {'class': cls_name, 'base': base, 'dt': DT, 'history': [[n, kw] for n, kw in history]}
+        return {'class': cls_name, 'base': base, 'dt': self.dt, 'history': [[n, kw] for n, kw in history]}
 
     def inv(self, obj, cls_name, base, history, rng=None):
         """Inv(obj): every observable of a deep copy equals that of a freshly built twin (two read orders)."""
@@ -348,16 +352,19 @@ def reachable_states(cls_name):
     return out
 
 
-def make_obj(eqsig, cls_name, base):
+def make_obj(eqsig, cls_name, base, dt=None):
+    dt = DT if dt is None else dt
+    q = dt / DT
     if cls_name == 'AccSignal':
-        return eqsig.AccSignal(base, DT, response_times=np.array([0.1, 0.35, 1.2]), smooth_fa_freqs=np.array([0.6, 1.5, 4.0, 10.0]))
-    return eqsig.Signal(base, DT, smooth_fa_freqs=np.array([0.6, 1.5, 4.0, 10.0]))
+        return eqsig.AccSignal(base, dt, response_times=np.array([0.1, 0.35, 1.2]) * q, smooth_fa_freqs=np.array([0.6, 1.5, 4.0, 10.0]) / q)
+    return eqsig.Signal(base, dt, smooth_fa_freqs=np.array([0.6, 1.5, 4.0, 10.0]) / q)
 
 
-def run_history(hook, eqsig, cls_name, base, history, check_every=True, rng=None, reads_checked=True):
+def run_history(hook, eqsig, cls_name, base, history, check_every=True, rng=None, reads_checked=True, dt=None):
     """Execute a history on a new object with the hook after every operation. Returns False at the first violation."""
     ctx = hook.ctx
-    obj = make_obj(eqsig, cls_name, base)
+    hook.dt = DT if dt is None else dt
+    obj = make_obj(eqsig, cls_name, base, hook.dt)
     done = []
     okk = True
     for op in history:
@@ -451,8 +458,10 @@ def run_shard(ctx):
     for h in range(nh):
         cls_name = 'AccSignal' if rng.random() < 0.75 else 'Signal'
         nn = int(rng.integers(32, 301))
-        base, rc = gen.record(rng, nn, cls=['noise', 'quake', 'walk', 'sine', 'chirp', 'beat'][int(rng.integers(6))], amp=float(10 ** rng.uniform(-2, 2)))
-        base = base + 0.01 * float(np.max(np.abs(base)) + 1e-3)
+        amp = float(10 ** rng.uniform(-9, 9)) if rng.random() < 0.4 else float(10 ** rng.uniform(-2, 2))
+        hdt = float(rng.choice([0.002, 0.005, 0.01, 0.01, 0.02, 0.05, 0.1, 1e-6, 7.0]))
+        base, rc = gen.record(rng, nn, cls=['noise', 'quake', 'walk', 'sine', 'chirp', 'beat'][int(rng.integers(6))], amp=amp)
+        base = base + 0.01 * float(np.max(np.abs(base)))
         L = int(rng.integers(10, 61)) if not quick else int(rng.integers(10, 31))
         names = OBS_ACC if cls_name == 'AccSignal' else OBS_SIG
         hist = []
@@ -461,7 +470,7 @@ def run_shard(ctx):
             if rng.random() < 0.5:
                 hist.append(('read:' + names[int(rng.integers(len(names)))], {}))
             else:
-                ops = op_list(cls_name, rng, cur_n)
+                ops = op_list(cls_name, rng, cur_n, hdt, amp)
                 op = ops[int(rng.integers(len(ops)))]
                 if op[0] == 'reset_values':
                     cur_n = len(op[1]['values'])
@@ -469,7 +478,7 @@ def run_shard(ctx):
         nontriv = any(not o[0].startswith('read:') for o in hist)
         ctx.case(core.digest(cls_name, base, [describe(o) for o in hist]), nontrivial=nontriv, cls='random-history/' + cls_name,
                  sample={'class': cls_name, 'n': nn, 'record': rc, 'history': [describe(o) for o in hist[:12]], 'length': L})
-        run_history(hook, eqsig, cls_name, base, hist, check_every=True, rng=rng, reads_checked=(h % 2 == 0))
+        run_history(hook, eqsig, cls_name, base, hist, check_every=True, rng=rng, reads_checked=(h % 2 == 0), dt=hdt)
     ctx.note('abstract_states_visited', len(hook.states))
     ctx.note('abstract_transitions_visited', len(hook.transitions))
     ctx.observations['abstract (class,W) states visited in this shard'] = len(hook.states)
@@ -485,5 +494,5 @@ def replay(w):
         for k, v in list(op[1].items()):
             if isinstance(v, list) and k in ('timezone', 'limits', 'cut_off') and k != 'cut_off':
                 op[1][k] = tuple(v)
-    run_history(hook, eqsig, w['class'], w['base'], hist, check_every=True, reads_checked=True)
+    run_history(hook, eqsig, w['class'], w['base'], hist, check_every=True, reads_checked=True, dt=w.get('dt', DT))
     return ['%s: %s' % (v['clause'], v['msg']) for v in ctx.violations]
